@@ -7,6 +7,7 @@ package main
 // block.
 
 import (
+	"bytes"
 	"fmt"
 	"math/big"
 	"strings"
@@ -14,6 +15,7 @@ import (
 	"verifharness/internal/h"
 
 	"github.com/dominant-strategies/go-quai/common"
+	"github.com/dominant-strategies/go-quai/consensus/misc"
 	"github.com/dominant-strategies/go-quai/core/types"
 	"github.com/dominant-strategies/go-quai/params"
 )
@@ -78,6 +80,7 @@ func runC13Chain(seed uint64, n int, outDir string, replay string) {
 				depth  uint64
 			}
 			var pending []pend
+			rewarded := map[common.Hash]uint64{} // seal (block or share) hash -> height of the block that issued its reward
 			for b := 0; b < 36; b++ {
 				st, err := w.step()
 				if err != nil {
@@ -110,6 +113,7 @@ func runC13Chain(seed uint64, n int, outDir string, replay string) {
 						o.Count("reward:conversion")
 					}
 				}
+				c13Issuance(o, ans, w.node, blk, rewarded)
 				stt, err := w.node.hc.StateAt(blk.EVMRoot(), blk.EtxSetRoot(), blk.QuaiStateSize())
 				if err != nil {
 					o.Violate("c06-state-does-not-open", fmt.Sprintf("block %d: %v", num, err))
@@ -176,4 +180,111 @@ func runC13Chain(seed uint64, n int, outDir string, replay string) {
 		o.EndCase(fmt.Sprint(rc.U64()), true)
 	}
 	o.Close(nil)
+}
+
+
+// c13Issuance: the coinbase ETXs a block emits are exactly the rewards of the block `depth` below it and of the work
+// shares at that height, in proportion to the entropy of each seal (the rule before the KawPow fork), one per seal,
+// and no seal is ever rewarded by two blocks.
+func c13Issuance(o *h.Out, ans func(string), n *zoneNode, blk *types.WorkObject, rewarded map[common.Hash]uint64) {
+	num := blk.NumberU64(common.ZONE_CTX)
+	var issued []*types.Transaction
+	for _, e := range blk.OutboundEtxs() {
+		if types.IsCoinBaseTx(e) {
+			issued = append(issued, e)
+		}
+	}
+	depth := params.WorkSharesInclusionDepth
+	if num <= uint64(depth) {
+		if len(issued) != 0 {
+			o.Violate("c13-reward-issued-without-target", fmt.Sprintf("block %d issues %d coinbase ETXs before the inclusion depth", num, len(issued)))
+		}
+		return
+	}
+	if blk.PrimeTerminusNumber().Uint64() >= params.KawPowForkBlock {
+		return // the per-algorithm share counts of the later rule are not modelled
+	}
+	var window []*types.WorkObject // parent, grandparent, ..., target
+	cur := blk
+	for i := 0; i < depth; i++ {
+		p := n.hc.GetBlockByHash(cur.ParentHash(common.ZONE_CTX))
+		if p == nil {
+			return
+		}
+		window = append(window, p)
+		cur = p
+	}
+	target := window[depth-1]
+	entropyOf := func(wh *types.WorkObjectHeader, isTarget bool) *big.Int {
+		if !isTarget {
+			if _, err := n.hc.VerifySeal(wh); err == nil {
+				// a full block that became an uncle counts with its target weight
+				return common.IntrinsicLogEntropy(common.BytesToHash(new(big.Int).Div(common.Big2e256, wh.Difficulty()).Bytes()))
+			}
+		}
+		ph, err := n.hc.ComputePowHash(wh)
+		if err != nil {
+			return big.NewInt(0)
+		}
+		return common.IntrinsicLogEntropy(ph)
+	}
+	shares := []*types.WorkObjectHeader{target.WorkObjectHeader()}
+	ents := []*big.Int{entropyOf(target.WorkObjectHeader(), true)}
+	for i := 0; i <= depth; i++ {
+		src := blk
+		if i < depth {
+			src = window[i]
+		}
+		full := n.hc.GetWorkObjectWithWorkShares(src.Hash())
+		if full == nil {
+			full = src
+		}
+		for _, u := range full.Uncles() {
+			if u.NumberU64() == target.NumberU64(common.ZONE_CTX) {
+				shares = append(shares, u)
+				ents = append(ents, entropyOf(u, false))
+			}
+		}
+	}
+	pt := n.hc.GetHeaderByHash(blk.PrimeTerminusHash())
+	if pt == nil {
+		return
+	}
+	rate := pt.ExchangeRate()
+	r := misc.CalculateQuaiReward(target.WorkObjectHeader(), target.Difficulty(), rate)
+	r.Add(r, target.AvgTxFees()).Add(r, new(big.Int).Div(target.TotalFees(), big.NewInt(2)))
+	line := fmt.Sprintf("split %s", r)
+	for _, e := range ents {
+		line += " " + e.String()
+	}
+	o.Op("%s", line)
+	var parts []string
+	for i := range shares {
+		v := "none"
+		if i < len(issued) {
+			tx := issued[i]
+			v = tx.Value().String()
+			if tx.To().IsInQiLedgerScope() {
+				v = "?" // paid in Qi at the prime terminus rate (conversion helper covered by C20)
+			}
+		}
+		parts = append(parts, fmt.Sprintf("r%d=%s", i, v))
+	}
+	ans(strings.Join(parts, " "))
+	o.Count(fmt.Sprintf("issuance:shares-at-height:%d", min(len(shares), 4)))
+	// T3: one reward per seal, addressed to its miner, labelled with its hash; no seal rewarded by two blocks
+	if len(issued) != len(shares) {
+		o.Violate("c13-reward-count", fmt.Sprintf("block %d issues %d coinbase ETXs for %d seals at height %d", num, len(issued), len(shares), target.NumberU64(common.ZONE_CTX)))
+		return
+	}
+	for i, sh := range shares {
+		tx := issued[i]
+		if !tx.To().Equal(sh.PrimaryCoinbase()) || !bytes.HasSuffix(tx.Data(), sh.Hash().Bytes()) || !bytes.HasPrefix(tx.Data(), sh.Data()) {
+			o.Violate("c13-reward-misaddressed", fmt.Sprintf("block %d: reward %d goes to %s with data %x, the seal %x belongs to %s", num, i, tx.To().Hex(), tx.Data(), sh.Hash().Bytes()[:6], sh.PrimaryCoinbase().Hex()))
+		}
+		if prev, ok := rewarded[sh.Hash()]; ok {
+			o.Violate("c13-seal-rewarded-twice", fmt.Sprintf("seal %x is rewarded by block %d and again by block %d", sh.Hash().Bytes()[:6], prev, num))
+		}
+		rewarded[sh.Hash()] = num
+	}
 }
